@@ -83,7 +83,15 @@ fn case(srv: &mut Srv, seed: u64, res: &mut CaseResult) -> R<()> {
     // registered) but were never collected: replay skips them and goes on with what follows
     let with_expired = rng.chance(350);
     let mut expired_ids: Vec<String> = vec![];
-    for i in 0..rng.below(25) {
+    // mostly short histories; some longer than the 100-slot delivery channel, so that the replay is still going on
+    // (the handler is slower than the store) when the bursts below are appended
+    let pre_n = match rng.below(20) {
+        0..=11 => rng.below(25),
+        12..=16 => 110 + rng.below(80),
+        _ => 300 + rng.below(200),
+    };
+    res.seen("history_sizes", if pre_n < 25 { "<25" } else if pre_n < 200 { "110-190" } else { "300-500" });
+    for i in 0..pre_n {
         if with_expired && i % 5 == 1 {
             let f = srv.must_append("pre", ctx, None, Some(json!({"expired": i})), Some(TTL::Time(Duration::from_millis(5))))?;
             expired_ids.push(f.id.to_string());
@@ -156,6 +164,21 @@ fn case(srv: &mut Srv, seed: u64, res: &mut CaseResult) -> R<()> {
         srv.must_append("t2", ctx, None, Some(json!({"i": i})), None)?;
         srv.must_append("e", ctx, None, Some(json!({"eph": i})), Some(TTL::Ephemeral))?;
         srv.must_append("other", if ctx == ZERO_CONTEXT { ctx_b } else { ZERO_CONTEXT }, None, None, None)?;
+    }
+    // the end marker must be a frame of the live phase: for a replaying handler, wait until it has worked through
+    // the history it was given (its output for the newest unexpired history frame), then append the marker
+    if resume_kind != "tail" {
+        if let Some(last_hist) = pre.iter().rev().find(|f| !expired_ids.contains(&f.id.to_string()) && after_id.map(|a| f.id > a).unwrap_or(true)) {
+            let lid = last_hist.id.to_string();
+            let replayed = srv.wait(Duration::from_secs(60), |log| log.iter().any(|f| f.topic == "h.out" && meta_str(f, "handler_id") == Some(&hid) && meta_str(f, "frame_id") == Some(&lid)))?;
+            if !replayed {
+                let stopped = srv.era_log().iter().any(|f| f.topic == "h.unregistered" && meta_str(f, "handler_id") == Some(&hid));
+                if !stopped {
+                    res.inconclusive = Some("the handler did not finish replaying its history within 60 s".into());
+                    return Ok(());
+                }
+            }
+        }
     }
     let fin = srv.must_append("fin", ctx, None, None, None)?;
     let fin_id = fin.id.to_string();
